@@ -1,6 +1,8 @@
 package sim
 
 import (
+	"bufio"
+	"bytes"
 	"context"
 	"errors"
 	"fmt"
@@ -655,6 +657,7 @@ type SimWriter struct {
 	broken bool
 	Failed bool
 	Err    error // the error this writer fails with
+	std    any   // kinds 4..6: the standard-library destination handed to the engine (see Collect)
 }
 
 func (w *World) NewWriter() *SimWriter { return &SimWriter{w: w} }
@@ -685,8 +688,33 @@ func (w *World) CallerWriter(sw *SimWriter) io.Writer {
 		return simFlushWriter{sw}
 	case 3:
 		return simStringWriter{sw}
+	case 4: // the destinations real callers use most: the engine may recognise their types
+		b := &bytes.Buffer{}
+		sw.std = b
+		return b
+	case 5:
+		b := &strings.Builder{}
+		sw.std = b
+		return b
+	case 6:
+		b := bufio.NewWriter(sw)
+		sw.std = b
+		return b
 	}
 	return sw
+}
+
+// Collect moves what a standard-library destination (kinds 4..6) received into Got.
+func (sw *SimWriter) Collect() {
+	switch b := sw.std.(type) {
+	case *bytes.Buffer:
+		sw.Got = append(sw.Got, b.Bytes()...)
+	case *strings.Builder:
+		sw.Got = append(sw.Got, b.String()...)
+	case *bufio.Writer:
+		b.Flush()
+	}
+	sw.std = nil
 }
 
 func (sw *SimWriter) Write(p []byte) (int, error) {
